@@ -127,7 +127,7 @@ Proof.
     { unfold xafter_packet; simpl. destruct lp; simpl; destruct (negb (jacobi g) && x_fpe a); simpl; lia. }
     simpl in *. lia.
   - unfold in_loop_or_after, xraise; simpl. pose proof (prk_le3 lp) as H3.
-    destruct (negb (xin_prec g =? 0) && negb (is_mp lp)); destruct (is_approx (xgoal g) && can_improve g); simpl; split; trivial; lia.
+    destruct (negb (xin_prec g =? 0) && negb (is_mp lp) && can_improve g); destruct (is_approx (xgoal g) && can_improve g); simpl; split; trivial; lia.
   - unfold in_loop_or_after; simpl.
     destruct (x_allapprox a); simpl; [split; trivial; lia|].
     destruct ((xin_prec g <? cur + (cur + 0)) && negb (xin_prec g =? 0)); simpl; split; trivial; lia.
